@@ -262,8 +262,8 @@ func exec(s *store, m *model, o op, step int, checkModel bool) (opErr error, sig
 						m.present[a] = false
 					} else {
 						// pinned more than once: "chunk still pinned" - absent, or present with a lowered counter
-						if still && after.Pin[k] >= pc {
-							return nil, "C11/remove-pinned-noop", fmt.Errorf("step %d: Set(remove,%d) on chunk with pin count %d neither removed it nor lowered the counter (%d)", step, a, pc, after.Pin[k])
+						if still && after.Pin[k] != pc-1 {
+							return nil, "C11/remove-pinned-counter", fmt.Errorf("step %d: Set(remove,%d) on chunk with pin count %d kept the chunk (\"still pinned\") but left the counter at %d instead of %d", step, a, pc, after.Pin[k], pc-1)
 						}
 						m.present[a] = still
 					}
